@@ -39,7 +39,7 @@ Definition binit (n : nat) : bheap := bmk n (fun _ => None) (fun _ => [None; Non
 Definition slot (l : list (option id)) (i : nat) : option id := nth i l None.
 
 (* l[i] = v  (IndexError past the end: the model leaves l alone) *)
-Fixpoint set_nth {A} (i : nat) (v : A) (l : list A) : list A :=
+Fixpoint set_nth {A} (i : nat) (v : A) (l : list A) {struct l} : list A :=
   match l, i with
   | [], _ => []
   | _ :: t, 0 => v :: t
